@@ -581,7 +581,8 @@ def fam_poll(tier, outdir):
     write_cfg(cfg, "Spec", consts, ["TypeOK", "LifeChild", "PollBounded"], export_stride=10 if tier == "quick" else 1)
     res = run_tlc_export("poll", "MC_Poll", cfg, outdir, tier, asan_stride=16 if tier == "quick" else 32, tlc_workers=10,
                          stride=1)
-    sc = dict(consts); sc.update({"MaxTime": 6, "MaxCalls": 12, "MaxPolls": 6, "MaxOut": 4, "Timeouts": "{0, 1, 3}", "Masks": "{2, 10, 15, 0, 31}", "MaxSrc": 3})
+    sc = dict(consts); sc.update({"MaxTime": 6, "MaxCalls": 12, "MaxPolls": 6, "MaxOut": 4, "Timeouts": "{0, 1, 3}", "Masks": "{2, 10, 15, 0, 31, 16}", "MaxSrc": 3,
+                                  "DlOpts": "{0, 2, 3600000, 4295167}"})   # (deadlines of an hour and of more than 2^32 microseconds: any positive value is a deadline)
     return sim_pass(res, "poll", "MC_Poll", sc, ["TypeOK", "LifeChild", "PollBounded"], outdir, tier, 300 if tier == "quick" else 20000, 70, stride=100)
 
 
@@ -1360,14 +1361,14 @@ FAMILIES = {"strtwice": fam_strtwice, "drainbig": fam_drainbig, "nest": fam_nest
 
 PROPS = {
     "C01": {"families": ["status", "realstatus", "stop", "two", "free"], "title": "exit status exact, stable, reaped once"},
-    "C06": {"families": ["stop", "faults", "restart", "two"], "title": "only the own unreaped child is signalled or waited for"},
+    "C06": {"families": ["stop", "status", "faults", "restart", "two"], "title": "only the own unreaped child is signalled or waited for"},
     "C07": {"families": ["stop", "threads", "free"], "title": "stop sequences"},
     "C03": {"families": ["env", "env2", "faults", "conc", "real"], "title": "launch fidelity: argv, environment, working directory, program resolution"},
     "C12": {"families": ["env", "env2", "faults", "conc", "threads", "real"], "title": "start leaves the caller untouched and gives the child a clean signal state"},
     "C10": {"families": ["wiring", "restart", "conc", "real"], "title": "each standard stream is connected exactly where the options say"},
     "C11": {"families": ["wiring", "env2", "conc", "real"], "title": "nothing else is inherited"},
-    "C13": {"families": ["options", "optprod", "threads"], "title": "options rejected up front, accepted as documented"},
-    "C04": {"families": ["faults", "env", "env2", "wiring", "restart"], "title": "start is all-or-nothing and reports the real cause"},
+    "C13": {"families": ["options", "optprod", "restart", "threads"], "title": "options rejected up front, accepted as documented"},
+    "C04": {"families": ["faults", "env", "env2", "wiring", "restart", "conc"], "title": "start is all-or-nothing and reports the real cause"},
     "C05": {"families": ["faults", "anyfault", "wiring", "env", "life"], "title": "no leak, no foreign or double close"},
     "C18": {"families": ["wincmd"], "title": "Windows command line and environment block",
             "level_text": "The real Windows string code (process.windows.c, utf.windows.c, compiled unchanged against a stub windows.h, under ASan+UBSan) is run on an exhaustive bounded enumeration of argument vectors and environments; every record of what the stubbed CreateProcessW received is validated by TLC against spec/WinCmdLine.tla (Split(cmdline) = argv by the documented parsing rules, exact buffer size, environment block layout).",
@@ -1379,7 +1380,7 @@ PROPS = {
             "level_text": "TLC enumerates the option records, wrapper methods and C return values of spec/Wrapper.tla (every field with several pairwise distinguishable values) and predicts what the C layer must receive and what the wrapper must return; each point is executed through the real reproc++ sources over a recording mock of the C API and compared.",
             "technique": "TLA+ mapping model (Wrapper.tla) enumerated by TLC; every point replayed through reproc++ over a mock C API (conformance)"},
     "C14": {"families": ["life", "faults", "env", "free"], "title": "life cycle; misuse errors, never UB"},
-    "C02": {"families": ["stream", "threads", "free"], "title": "stream fidelity"},
+    "C02": {"families": ["stream", "drainbig", "threads", "free"], "title": "stream fidelity"},
     # (thorough: the destroy scripts also run through the C++ destructor in C16's cxx family)
     "C15": {"families": ["destroy", "restart", "free"], "title": "destroy applies the stop policy"},
     "C16": {"families": ["drain", "drainbig", "strtwice", "run", "nest", "cxx", "free"], "title": "drain and run"},
@@ -1425,6 +1426,20 @@ def conclude(prop, tier, results, known, outdir, t0):
             own = owners(d) | FAMILY_EXTRA_OWNERS.get(res["family"], set())
             if res["family"] == "restart" and (d.get("fn") in ("read", "write", "poll", "close") or set(d.get("keys") or []) & {"nfd", "probe", "mon"}):
                 own |= {"C10"}   # which pipe ends the parent holds after the second start is the wiring contract's, whatever the first attempt left
+            if res["family"] == "restart" and isinstance(d.get("script"), list) and any(
+                    isinstance(st, dict) and st.get("e") == "ret" and st.get("r") == EINVAL for st in d["script"][:6]):
+                own |= {"C13"}   # the failed attempt of this behaviour was a refusal of the options: "refused with no side effect"
+            if d.get("fn") in ("wait", "stop", "destroy") and isinstance(d.get("obs"), dict) and d["obs"].get("reap") and isinstance(d["obs"].get("r"), int) and d["obs"]["r"] < 0 \
+                    and isinstance(d.get("exp"), dict) and isinstance(d["exp"].get("r"), int) and d["exp"]["r"] >= 0:
+                own |= {"C06"}   # the child was reaped but the call reports failure: the handle goes on treating a reaped process as its unreaped child
+            if res["family"] in ("drainbig", "drain") and "dsum" in (d.get("keys") or []) and isinstance(d.get("obs"), dict) and isinstance(d.get("exp"), dict):
+                try:
+                    if d["obs"].get("r") == 0 and any(o_[1] < e_[1] for o_, e_ in zip(d["obs"]["dsum"], d["exp"]["dsum"])):
+                        own |= {"C02"}   # the drain said "both streams have ended" before all of a stream's data was delivered
+                except Exception:
+                    pass
+            if res["family"] == "conc" and "/nonexistent" in json.dumps(d.get("call") or {}):
+                own |= {"C04"}   # the scenario in which one of the concurrent starts must fail with "no such program" and the other must run its own
             if res["family"] in ("env", "env2") and "r" in (d.get("keys") or []) and isinstance(d.get("obs"), dict) and (d["obs"].get("r") == -2 or (isinstance(d.get("exp"), dict) and d["exp"].get("r") == -2)):
                 own |= {"C03"}   # the requested program was not found where the contract says it is: program resolution
             if "INFRA" in own:
